@@ -65,6 +65,13 @@ pub enum Tag {
     Ab(i64),
     A_b { a: String },
 }
+/// unit variants whose names continue the names of `Tag`'s: Tag::A + Rest::BC reads like Tag::AB + Rest::C
+#[derive(Debug, Clone, PartialEq)]
+pub enum Rest {
+    B,
+    BC,
+    C,
+}
 #[derive(Debug, Clone, PartialEq)]
 pub struct Svc {
     pub id: i64,
@@ -78,6 +85,7 @@ impl DefaultCacheableKey for Pair {}
 impl DefaultCacheableKey for Marker {}
 impl DefaultCacheableKey for Shape {}
 impl DefaultCacheableKey for Tag {}
+impl DefaultCacheableKey for Rest {}
 impl DefaultCacheableKey for Svc {}
 impl DefaultCacheableKey for Small {}
 
@@ -115,6 +123,15 @@ impl DefaultCacheableKey for Small {}
 #[cache] fn s_chars(a: char, b: char) -> u64 { let _ = (a, b); bump() }
 #[cache] fn s_tup5(a: (String, char, i64, bool, Option<String>)) -> u64 { let _ = a; bump() }
 
+#[cache] fn s_tags(a: Tag, b: Rest) -> u64 { let _ = (a, b); bump() }
+#[cache] fn s_i3(a: u8, b: i64, c: u8) -> u64 { let _ = (a, b, c); bump() }
+// parameter names a generated local could capture
+#[cache] fn s_names(key: i64, result: i64, part: i64, parts: i64, cache: i64) -> u64 { let _ = (key, result, part, parts, cache); bump() }
+#[cache] fn s_names2(order: i64, value: i64, entry: i64, now: i64, k: i64) -> u64 { let _ = (order, value, entry, now, k); bump() }
+impl Tag {
+    #[cache] fn m_tag(&self, r: Rest) -> u64 { let _ = r; bump() }
+    #[cache] fn m_tag_by_value(self, r: Rest, k: i64) -> u64 { let _ = (r, k); bump() }
+}
 impl Svc {
     #[cache] fn m_self(&self) -> u64 { bump() }
     #[cache] fn m_self_args(&self, a: String, b: i64) -> u64 { let _ = (a, b); bump() }
@@ -144,6 +161,15 @@ impl Small {
 #[cache_async] async fn a_f2(a: f64, b: f64) -> u64 { let _ = (a, b); bump() }
 #[cache_async] async fn a_chars(a: char, b: char, c: String) -> u64 { let _ = (a, b, c); bump() }
 #[cache_async] async fn a_5(a: String, b: Option<String>, c: Vec<char>, d: bool, e: i128) -> u64 { let _ = (a, b, c, d, e); bump() }
+#[cache_async] async fn a_i2(a: i64, b: i64) -> u64 { let _ = (a, b); bump() }
+#[cache_async] async fn a_i3(a: u8, b: i64, c: u8) -> u64 { let _ = (a, b, c); bump() }
+#[cache_async] async fn a_tags(a: Tag, b: Rest) -> u64 { let _ = (a, b); bump() }
+#[cache_async] async fn a_names(key: i64, result: i64, part: i64, parts: i64, cache: i64) -> u64 { let _ = (key, result, part, parts, cache); bump() }
+#[cache_async] async fn a_names2(order: i64, value: i64, entry: i64, now: i64, k: i64) -> u64 { let _ = (order, value, entry, now, k); bump() }
+impl Tag {
+    #[cache_async] async fn am_tag(&self, r: Rest) -> u64 { let _ = r; bump() }
+    #[cache_async] async fn am_tag2(&self, r: Rest, k: i64) -> u64 { let _ = (r, k); bump() }
+}
 impl Svc {
     #[cache_async] async fn am_self(&self) -> u64 { bump() }
     #[cache_async] async fn am_self_args(&self, a: String, b: Vec<i64>) -> u64 { let _ = (a, b); bump() }
@@ -336,6 +362,13 @@ impl Arg for Tag {
     }
 }
 
+impl Arg for Rest {
+    fn ty() -> Ty { Ty::Adt(vec![("B", TShape::Unit), ("BC", TShape::Unit), ("C", TShape::Unit)]) }
+    fn from_v(v: &V) -> Self {
+        match v { V::AU("B") => Rest::B, V::AU("BC") => Rest::BC, V::AU("C") => Rest::C, _ => panic!("not Rest") }
+    }
+}
+
 // ---------------------------------------------------------------------------
 // signatures
 // ---------------------------------------------------------------------------
@@ -401,6 +434,12 @@ fn sigs() -> Vec<Sig> {
     free!(false, s_optopt, [Option<Option<bool>>, Option<char>], |a| s_optopt(get(&a[0]), get(&a[1])));
     free!(false, s_chars, [char, char], |a| s_chars(get(&a[0]), get(&a[1])));
     free!(false, s_tup5, [(String, char, i64, bool, Option<String>)], |a| s_tup5(get(&a[0])));
+    free!(false, s_tags, [Tag, Rest], |a| s_tags(get(&a[0]), get(&a[1])));
+    free!(false, s_i3, [u8, i64, u8], |a| s_i3(get(&a[0]), get(&a[1]), get(&a[2])));
+    free!(false, s_names, [i64, i64, i64, i64, i64], |a| s_names(get(&a[0]), get(&a[1]), get(&a[2]), get(&a[3]), get(&a[4])));
+    free!(false, s_names2, [i64, i64, i64, i64, i64], |a| s_names2(get(&a[0]), get(&a[1]), get(&a[2]), get(&a[3]), get(&a[4])));
+    meth!(false, m_tag, Tag, [Rest], |r, a| r.m_tag(get(&a[0])));
+    meth!(false, m_tag_by_value, Tag, [Rest, i64], |r, a| r.m_tag_by_value(get(&a[0]), get(&a[1])));
     meth!(false, m_self, Svc, [], |r, a| r.m_self());
     meth!(false, m_self_args, Svc, [String, i64], |r, a| r.m_self_args(get(&a[0]), get(&a[1])));
     meth!(false, m_shape, Shape, [i64], |r, a| r.m_shape(get(&a[0])));
@@ -419,6 +458,13 @@ fn sigs() -> Vec<Sig> {
     free!(true, a_chars, [char, char, String], |a| block_on(a_chars(get(&a[0]), get(&a[1]), get(&a[2]))));
     free!(true, a_5, [String, Option<String>, Vec<char>, bool, i128],
           |a| block_on(a_5(get(&a[0]), get(&a[1]), get(&a[2]), get(&a[3]), get(&a[4]))));
+    free!(true, a_i2, [i64, i64], |a| block_on(a_i2(get(&a[0]), get(&a[1]))));
+    free!(true, a_i3, [u8, i64, u8], |a| block_on(a_i3(get(&a[0]), get(&a[1]), get(&a[2]))));
+    free!(true, a_tags, [Tag, Rest], |a| block_on(a_tags(get(&a[0]), get(&a[1]))));
+    free!(true, a_names, [i64, i64, i64, i64, i64], |a| block_on(a_names(get(&a[0]), get(&a[1]), get(&a[2]), get(&a[3]), get(&a[4]))));
+    free!(true, a_names2, [i64, i64, i64, i64, i64], |a| block_on(a_names2(get(&a[0]), get(&a[1]), get(&a[2]), get(&a[3]), get(&a[4]))));
+    meth!(true, am_tag, Tag, [Rest], |r, a| block_on(r.am_tag(get(&a[0]))));
+    meth!(true, am_tag2, Tag, [Rest, i64], |r, a| block_on(r.am_tag2(get(&a[0]), get(&a[1]))));
     meth!(true, am_self, Svc, [], |r, a| block_on(r.am_self()));
     meth!(true, am_self_args, Svc, [String, Vec<i64>], |r, a| block_on(r.am_self_args(get(&a[0]), get(&a[1]))));
     v
@@ -610,7 +656,7 @@ fn near(r: &mut Rng, parts: &[V], tys: &[Ty]) -> (Vec<V>, Vec<V>) {
     let mut adj: Vec<usize> = Vec::new();
     for i in 0..parts.len().saturating_sub(1) {
         match (&parts[i], &parts[i + 1]) {
-            (V::S(_), V::S(_)) | (V::I(_), V::I(_)) | (V::C(_), V::C(_)) => adj.push(i),
+            (V::S(_), V::S(_)) | (V::I(_), V::I(_)) | (V::C(_), V::C(_)) | (V::AU(_), V::AU(_)) => adj.push(i),
             _ => {}
         }
     }
@@ -643,6 +689,11 @@ fn near(r: &mut Rng, parts: &[V], tys: &[Ty]) -> (Vec<V>, Vec<V>) {
                     }
                 }
                 b[i] = mutate(r, &parts[i], &tys[i]);
+            }
+            (V::AU(_), V::AU(_)) => {
+                // unit variants: the names of one type may continue the names of the other
+                b[i] = gen(r, &tys[i], 0);
+                b[i + 1] = gen(r, &tys[i + 1], 0);
             }
             (V::C(x), V::C(z)) => {
                 // swap
